@@ -12,10 +12,11 @@ import Ecpint.Model.RadialGen
 import Ecpint.Model.Angular
 import Ecpint.Model.EcpLoad
 import Ecpint.Gen.QClasses
+import Ecpint.Model.Contraction
 import Std.Data.HashMap
 
 namespace Ecpint.ShellPair
-open Ecpint
+open Ecpint Ecpint.Contraction
 
 structure Switches where
   tailCut : Bool := true          -- early tail cut of the primitive quadrature
@@ -23,7 +24,7 @@ structure Switches where
   radialScreen : Bool := true     -- skip a primitive when estimate_type2 ≤ tolerance
   pairScreen : Bool := true       -- per-l screen of compute_shell_pair
   prescreen : Bool := true        -- type-1 integrand prescreen (first/last significant grid point)
-  finest : Bool := false          -- never accept a quadrature level early (tolerance 0)
+  finest : Bool := false          -- primitive radial quadrature (integrate_small) never accepts a level early
 deriving Repr, DecidableEq
 
 structure GaussECP (α : Type) where
@@ -72,16 +73,6 @@ structure Engine (α : Type) where
 section
 variable {α : Type} [Flt α]
 
-def ncart (L : Nat) : Nat := (L + 1) * (L + 2) / 2
-
-/-- Cartesian components in loop order -/
-def cartList (L : Nat) : List (Nat × Nat × Nat) :=
-  (List.range (L + 1)).flatMap fun i =>
-    let x := L - i
-    (List.range (L - x + 1)).map fun j =>
-      let y := (L - x) - j
-      (x, y, L - x - y)
-
 /-- `ECP::evaluate(r, l)` -/
 def ecpEval (U : Ecp α) (maxPow : Nat) (r : α) (l : Nat) : α :=
   let r2 := r * r
@@ -94,10 +85,7 @@ def noType1 (U : Ecp α) : Bool :=
   !(U.gs.any fun g => g.l == U.L && Flt.ofRat 1 1000000000000 < Flt.abs g.d)
 
 /-- `calcC(a, m, A)` -/
-def calcC (E : Engine α) (pw : α → Nat → α) (a m : Nat) (A : α) : α :=
-  let v : α := (((1 : Int) - 2 * (((a - m) % 2 : Nat) : Int) : Int) : α)
-  let v := v * pw A (a - m)
-  v * (E.fac[a]! / (E.fac[m]! * E.fac[a - m]!))
+def calcC (E : Engine α) (pw : α → Nat → α) (a m : Nat) (A : α) : α := Contraction.calcC E.fac pw a m A
 
 /-- `makeC(C, L, A)`: C(0, na, k, l, m) as a function -/
 def makeCTab (E : Engine α) (pw : α → Nat → α) (L : Nat) (A : α × α × α) : Array α :=
@@ -176,7 +164,7 @@ def radIntegrate (E : Engine α) (sw : Switches) (maxL : Nat) (g : Quad.Grid α)
   let mut ok := true
   let mut l := offset
   let mut go := true
-  let tol : α := if sw.finest then 0 else E.tol
+  let tol : α := E.tol
   while go && l ≤ maxL do
     let r := Quad.integrate g (fun ix => if ix < start ∨ ix > stop then 0 else vals l ix) tol start stop
     out := out.set! l r.1
@@ -268,7 +256,7 @@ def radType2 (E : Engine α) (sw : Switches) (pwf : Nat → α → α) (maxPow :
   let FbT := buildF E sB B l2end E.small.x
   let Fa := fun (l i : Nat) => (FaT[i]!)[l]!
   let Fb := fun (l i : Nat) => (FbT[i]!)[l]!
-  let tol : α := if sw.finest then 0 else E.tol
+  let tol : α := E.tol
   Id.run do
     let mut values : Array (Array α) := Array.replicate (l1end0 + 1) (Array.replicate (l2end0 + 1) 0)
     let mut tests : Array Bool := #[]
@@ -309,79 +297,24 @@ def radType2 (E : Engine α) (sw : Switches) (pwf : Nat → α → α) (maxPow :
 /-- `qgen::rolled_up(lam, LA, LB, radials, CA, CB, SA, SB, angint, values)`: values(na, nb, lam+mu) -/
 def rolledUp (E : Engine α) (lam LA LB : Nat) (radials : Nat → Nat → Nat → α)
     (CA CB : Nat → Nat → Nat → Nat → α) (SA SB : Array (Array α)) : Array (Array α) :=
-  let prefac : α := ((16 : Nat) : α) * Flt.pi * Flt.pi
   let compsA := (cartList LA).toArray
   let compsB := (cartList LB).toArray
-  let nmu := 2 * lam + 1
-  Id.run do
-    let mut out : Array (Array α) := Array.replicate (compsA.size * compsB.size) (Array.replicate nmu 0)
-    for na in [0:compsA.size] do
-      let (x1, y1, z1) := compsA[na]!
-      for nb in [0:compsB.size] do
-        let (x2, y2, z2) := compsB[nb]!
-        let mut acc := out[na * compsB.size + nb]!
-        for ax in [0:x1 + 1] do
-          for ay in [0:y1 + 1] do
-            for az in [0:z1 + 1] do
-              let alpha := ax + ay + az
-              for bx in [0:x2 + 1] do
-                for by' in [0:y2 + 1] do
-                  for bz in [0:z2 + 1] do
-                    let beta := bx + by' + bz
-                    let N := alpha + beta
-                    let C := CA na ax ay az * CB nb bx by' bz
-                    if Flt.ofRat 1 1000000000000000 < Flt.abs C then
-                      -- w1(lam1, mu) = Σ_{mu1} SA(lam1, lam1+mu1) · omega(ax,ay,az,lam,lam+mu,lam1,lam1+mu1)
-                      let w1 := (Array.range (lam + alpha + 1)).map fun lam1 =>
-                        (Array.range nmu).map fun mi =>
-                          (List.range (2 * lam1 + 1)).foldl (fun s m1 =>
-                            s + (SA[lam1]!)[m1]! * E.omega ax ay az lam mi lam1 m1) (0 : α)
-                      let w2 := (Array.range (lam + beta + 1)).map fun lam2 =>
-                        (Array.range nmu).map fun mi =>
-                          (List.range (2 * lam2 + 1)).foldl (fun s m2 =>
-                            s + (SB[lam2]!)[m2]! * E.omega bx by' bz lam mi lam2 m2) (0 : α)
-                      for lam1 in [0:lam + alpha + 1] do
-                        let mut lam2 := (lam1 + N) % 2
-                        while lam2 ≤ lam + beta do
-                          let val := prefac * C * radials N lam1 lam2
-                          for mi in [0:nmu] do
-                            acc := acc.set! mi (acc[mi]! + val * (w1[lam1]!)[mi]! * (w2[lam2]!)[mi]!)
-                          lam2 := lam2 + 2
-        out := out.set! (na * compsB.size + nb) acc
-    return out
+  (Array.range (compsA.size * compsB.size)).map fun i =>
+    let na := i / compsB.size
+    let nb := i % compsB.size
+    rolledUpBlock E.omega (fun C => decide (Flt.ofRat 1 1000000000000000 < Flt.abs C)) (((16 : Nat) : α) * Flt.pi * Flt.pi) lam radials
+      (CA na) (CB nb) SA SB compsA[na]! compsB[nb]!
 
 /-- `qgen::rolled_up_special(lam, LA, LB, radials, CB, SB, angint, values)` (shell A on the ECP centre) -/
 def rolledUpSpecial (E : Engine α) (lam LA LB : Nat) (radials : Nat → Nat → Nat → α)
     (CB : Nat → Nat → Nat → Nat → α) (SB : Array (Array α)) : Array (Array α) :=
-  let prefac : α := ((8 : Nat) : α) * Flt.pi * Flt.sqrt Flt.pi
   let compsA := (cartList LA).toArray
   let compsB := (cartList LB).toArray
-  let nmu := 2 * lam + 1
-  Id.run do
-    let mut out : Array (Array α) := Array.replicate (compsA.size * compsB.size) (Array.replicate nmu 0)
-    for na in [0:compsA.size] do
-      let (x1, y1, z1) := compsA[na]!
-      for nb in [0:compsB.size] do
-        let (x2, y2, z2) := compsB[nb]!
-        let alpha := x1 + y1 + z1
-        let mut acc := out[na * compsB.size + nb]!
-        for bx in [0:x2 + 1] do
-          for by' in [0:y2 + 1] do
-            for bz in [0:z2 + 1] do
-              let beta := bx + by' + bz
-              let N := alpha + beta
-              let C := CB nb bx by' bz
-              if Flt.ofRat 1 1000000000000000 < Flt.abs C then
-                let mut lam2 := N % 2
-                while lam2 ≤ lam + beta do
-                  let val1 := prefac * C * radials N 0 lam2
-                  for m2 in [0:2 * lam2 + 1] do
-                    let val2 := val1 * (SB[lam2]!)[m2]!
-                    for mi in [0:nmu] do
-                      acc := acc.set! mi (acc[mi]! + val2 * E.omega x1 y1 z1 lam mi 0 0 * E.omega bx by' bz lam mi lam2 m2)
-                  lam2 := lam2 + 2
-        out := out.set! (na * compsB.size + nb) acc
-    return out
+  (Array.range (compsA.size * compsB.size)).map fun i =>
+    let na := i / compsB.size
+    let nb := i % compsB.size
+    rolledUpSpecialBlock E.omega (fun C => decide (Flt.ofRat 1 1000000000000000 < Flt.abs C)) (((8 : Nat) : α) * Flt.pi * Flt.sqrt Flt.pi) lam radials
+      (CB nb) SB compsA[na]! compsB[nb]!
 
 /-- `ECPIntegral::type1`: the local part.  values(na, nb) -/
 def type1 (E : Engine α) (sw : Switches) (pwf : Nat → α → α) (maxPow : Nat)
@@ -395,38 +328,10 @@ def type1 (E : Engine α) (sw : Switches) (pwf : Nat → α → α) (maxPow : Na
   let radials := fun (ix lam idx : Nat) => ((rad[ix]!)[lam]!)[idx]!
   let compsA := (cartList LA).toArray
   let compsB := (cartList LB).toArray
-  Id.run do
-    let mut out : Array α := Array.replicate (compsA.size * compsB.size) 0
-    for na in [0:compsA.size] do
-      let (x1, y1, z1) := compsA[na]!
-      for nb in [0:compsB.size] do
-        let (x2, y2, z2) := compsB[nb]!
-        let mut v : α := 0
-        for k1 in [0:x1 + 1] do
-          for k2 in [0:x2 + 1] do
-            let k := k1 + k2
-            for l1 in [0:y1 + 1] do
-              for l2 in [0:y2 + 1] do
-                let l := l1 + l2
-                for m1 in [0:z1 + 1] do
-                  for m2 in [0:z2 + 1] do
-                    let m := m1 + m2
-                    let C := CA na k1 l1 m1 * CB nb k2 l2 m2
-                    if Flt.ofRat 1 100000000000000 < Flt.abs C then
-                      let ix := k + l + m
-                      let lpar := ix % 2
-                      let neg := l % 2 = 1          -- msign = 1 − 2(l%2)
-                      let mpar := (lpar + m) % 2
-                      let mut lam := lpar
-                      while lam ≤ ix do
-                        let mut mu := mpar
-                        while mu ≤ lam do
-                          let idx := if neg then lam - mu else lam + mu
-                          v := v + C * E.W k l m lam idx * radials ix lam idx
-                          mu := mu + 2
-                        lam := lam + 2
-        out := out.set! (na * compsB.size + nb) (v * (((4 : Nat) : α) * Flt.pi))
-    return out
+  (Array.range (compsA.size * compsB.size)).map fun i =>
+    let na := i / compsB.size
+    let nb := i % compsB.size
+    type1Entry E.W (fun C => decide (Flt.ofRat 1 100000000000000 < Flt.abs C)) radials (CA na) (CB nb) compsA[na]! compsB[nb]! * (((4 : Nat) : α) * Flt.pi)
 
 /-- `ECPIntegral::estimate_type2`: the per-l screening estimates -/
 def estimateType2 (E : Engine α) (pwf : Nat → α → α) (U : Ecp α) (sA sB : Shell α) (d : PairData α)
@@ -460,19 +365,6 @@ def estimateType2 (E : Engine α) (pwf : Nat → α → α) (U : Ecp α) (sA sB 
       s + Flt.abs g.d * pwf 3 (Flt.sqrt (Flt.pi / g.a)) * Flt.exp (xp / zt) * Tk) (0 : α)
     let ab := ab * Flt.exp (-atilde * d.A2 - btilde * d.B2)
     (((2 * l + 1) * (2 * l + 1) : Nat) : α) * aBound * bBound * ab
-
-/-- a generated class Q(LA, LB, lam) with LA ≤ LB: radial integrals through the primitive routine for the class's
-triple lists, then the rolled-up contraction or the unrolled term list -/
-structure UTerm (α : Type) where
-  na : Nat
-  nb : Nat
-  mu : Nat
-  coef : α
-  ca : Nat × Nat × Nat
-  cb : Nat × Nat × Nat
-  rad : Nat × Nat × Nat
-  sa : Nat × Nat
-  sb : Nat × Nat
 
 /-- `RadialIntegral::type2(triples, nbase, lam, U, shellA, shellB, A, B, radials)` -/
 def radialTriples (E : Engine α) (sw : Switches) (triples : List (Nat × Nat × Nat)) (nbase lam : Nat)
@@ -530,11 +422,7 @@ def qClass (E : Engine α) (sw : Switches) (cls : Gen.QClass) (terms : Option (A
   | some ts =>
     let nB := ncart cls.LB
     let nmu := 2 * lam + 1
-    let res : Array α := ts.foldl (fun out t =>
-      let v := t.coef * CA t.na t.ca.1 t.ca.2.1 t.ca.2.2 * CB t.nb t.cb.1 t.cb.2.1 t.cb.2.2
-                * radials t.rad.1 t.rad.2.1 t.rad.2.2 * (SA[t.sa.1]!)[t.sa.2]! * (SB[t.sb.1]!)[t.sb.2]!
-      let i := (t.na * nB + t.nb) * nmu + t.mu
-      out.set! i (out[i]! + v)) (Array.replicate (ncart cls.LA * nB * nmu) 0)
+    let res : Array α := evalTerms (ncart cls.LA) nB nmu ts CA CB radials SA SB
     (Array.range (ncart cls.LA * nB)).map fun ab => (Array.range nmu).map fun mi => res[ab * nmu + mi]!
 
 /-- `ECPIntegral::type2(lam, …)`: values(na, nb, lam+mu) -/
@@ -596,11 +484,11 @@ def type2 (E : Engine α) (sw : Switches) (pwf : Nat → α → α) (maxPow : Na
       | some (cls, terms) => transposeT (qClass E sw cls terms U sB sA CB CA SB SA d.Bm d.Am)
       | none => Array.replicate (nA * nB) (Array.replicate nmu 0)
 
-/-- `ECPIntegral::compute_shell_pair(U, shellA, shellB, values, shiftA, shiftB)` → (ncartA, ncartB, values) -/
-def computeShellPair (E : Engine α) (sw : Switches) (pwf : Nat → α → α) (pw : α → Nat → α) (maxPow : Nat) (euler sinh1 : α)
+/-- everything `compute_shell_pair` does after it has formed the centre differences: the routine below this point
+never looks at an absolute position -/
+def computeFromData (E : Engine α) (sw : Switches) (pwf : Nat → α → α) (pw : α → Nat → α) (maxPow : Nat) (euler sinh1 : α)
     (classes : Nat → Nat → Nat → Option (Gen.QClass × Option (Array (UTerm α))))
-    (U : Ecp α) (sA sB : Shell α) (shiftA shiftB : Int) : Nat × Nat × Array α :=
-  let d := mkData U sA sB shiftA shiftB
+    (d : PairData α) (U : Ecp α) (sA sB : Shell α) : Nat × Nat × Array α :=
   let par := buildParameters sA sB d
   let CAt := makeCTab E pw d.LA d.A
   let CBt := makeCTab E pw d.LB d.B
@@ -621,6 +509,17 @@ def computeShellPair (E : Engine α) (sw : Switches) (pwf : Nat → α → α) (
         (Array.range (nA * nB)).map fun i => v[i]! + (t2[i]!)[mi]!) v
     else v) v0
   (nA, nB, vals)
+
+/-- forget the absolute position of an ECP / a shell -/
+def Ecp.atOrigin (U : Ecp α) : Ecp α := { U with center := (0, 0, 0) }
+def Shell.atOrigin (s : Shell α) : Shell α := { s with center := (0, 0, 0) }
+
+/-- `ECPIntegral::compute_shell_pair(U, shellA, shellB, values, shiftA, shiftB)` → (ncartA, ncartB, values): the centres
+enter through `mkData` (differences to the ECP centre) only -/
+def computeShellPair (E : Engine α) (sw : Switches) (pwf : Nat → α → α) (pw : α → Nat → α) (maxPow : Nat) (euler sinh1 : α)
+    (classes : Nat → Nat → Nat → Option (Gen.QClass × Option (Array (UTerm α))))
+    (U : Ecp α) (sA sB : Shell α) (shiftA shiftB : Int) : Nat × Nat × Array α :=
+  computeFromData E sw pwf pw maxPow euler sinh1 classes (mkData U sA sB shiftA shiftB) U.atOrigin sA.atOrigin sB.atOrigin
 
 end
 end Ecpint.ShellPair
